@@ -1,17 +1,17 @@
 SPECIFICATION Spec
 CONSTANTS
-  Unary = {u1, u2}
-  Subs = {s1}
+  Unary = {u1}
+  Subs = {}
   Notifs = {}
   Retry = {r1}
-  NVals = 1
+  NVals = 0
   MaxGen = 1
   MaxFaults = 1
   AllowStop = FALSE
   AllowCancel = FALSE
   Reconnect = TRUE
   MaxAttempts = 2
-  FixExitOrder = FALSE
+  FixExitOrder = TRUE
   FixReadErr = TRUE
   FixStaleDelete = FALSE
 INVARIANT OwnResult
